@@ -1063,3 +1063,168 @@ ASSUMPTIONS = [
 ]
 NOT_COVERED = ["databases other than SQLite", "to-many joins on the base query",
                "LIMIT/OFFSET bases", "Django < 4 queryset_annotations path", "GeoDjango"]
+
+
+# --------------------------------------------------------------------------- enumerated family
+SYSTEMATIC_DOC = (
+    "Besides the seeded random histories, the product {8 host styles} x {base shapes: "
+    "unfiltered, pre-filtered, ordered, pre-joined on the used relationship by "
+    "relationship / outer / target+onclause / joinedload / select_related, pre-joined on "
+    "another relationship, annotated, distinct, result of an earlier shorthand call} x "
+    "{filter kinds: scalar, function, navigation depth 1 and 2, any, all, any()} is "
+    "enumerated with a fixed small database; each history is: build the base, apply, run "
+    "base and result, apply a failing filter, apply the same template with other "
+    "literals, run everything.")
+
+SYS_DATA = {
+    "Author": [{"id": 1, "name": "ann"}, {"id": 2, "name": "bob"}, {"id": 3, "name": "ann"}],
+    "Post": [{"id": 1, "title": "alpha", "rating": 5, "author_id": 1},
+             {"id": 2, "title": "beta", "rating": 2, "author_id": None},
+             {"id": 3, "title": "alpha", "rating": 3, "author_id": 2},
+             {"id": 4, "title": "gamma", "rating": 0, "author_id": 1}],
+    "Comment": [{"id": 1, "body": "nice", "post_id": 1, "writer_id": 2},
+                {"id": 2, "body": "cool", "post_id": 3, "writer_id": None},
+                {"id": 3, "body": "nice", "post_id": 1, "writer_id": 1},
+                {"id": 4, "body": "meh", "post_id": 2, "writer_id": 3}],
+}
+SYS_STYLES = ["sa_select", "sa_select_aliased", "sa_legacy", "sa_core", "dj_qs", "dj_manager",
+              "dj_custom_manager", "dj_related_manager"]
+SYS_SHAPES = ["plain", "where", "order", "join_rel", "join_outer", "join_target_on",
+              "join_joinedload", "join_other", "annotated", "distinct", "chained"]
+SYS_FILTERS = ["scalar", "fn", "nav1", "nav2", "any", "all", "any0"]
+
+
+def _sys_template(kind, root, variant):
+    v = variant
+    if kind == "scalar":
+        f = {"Post": "rating", "Comment": "post_id", "Author": "id"}[root]
+        return {"k": "cmp", "f": f, "op": "ge", "v": 1 + v}
+    if kind == "fn":
+        f = {"Post": "title", "Comment": "body", "Author": "name"}[root]
+        val = {"Post": "alpha", "Comment": "nice", "Author": "ann"}[root]
+        return {"k": "fn", "fn": "substring", "f": f, "n": v, "m": 2, "op": "eq", "v": val[v:v + 2]}
+    if kind == "nav1":
+        rel = {"Post": "author", "Comment": "writer"}.get(root)
+        if rel is None:
+            return None
+        return {"k": "nav", "path": [rel], "f": "name", "op": "eq", "v": ["ann", "bob"][v]}
+    if kind == "nav2":
+        if root != "Comment":
+            return None
+        return {"k": "nav", "path": ["post", "author"], "f": "name", "op": "eq", "v": ["ann", "bob"][v]}
+    rel = {"Author": "posts", "Post": "comments"}.get(root)
+    if rel is None:
+        return None
+    tgt = T.TO_MANY[root][rel][0]
+    f = {"Post": "rating", "Comment": "id"}[tgt]
+    if kind == "any0":
+        return {"k": "coll", "rel": rel, "q": "any0"}
+    return {"k": "coll", "rel": rel, "q": kind, "a": {"k": "cmp", "f": f, "op": "ge", "v": 2 + v}}
+
+
+def _sys_history(style, root, shape, fkind):
+    dj = style.startswith("dj")
+    core = style == "sa_core"
+    t = _sys_template(fkind, root, 0)
+    t2 = _sys_template(fkind, root, 1)
+    if t is None:
+        return None
+    if core and fkind in ("nav1", "nav2", "any", "all", "any0"):
+        return None
+    if dj and fkind == "all":
+        return None
+    ops = []
+    n = [0]
+
+    def add(op):
+        n[0] += 1
+        op["i"] = n[0]
+        ops.append(op)
+        return n[0]
+
+    new = {"op": "new", "style": style, "root": root}
+    if style == "dj_custom_manager" and root != "Post":
+        return None
+    if style == "dj_related_manager":
+        if root == "Author":
+            return None
+        new["owner_id"] = 1
+    base = add(new)
+    rel1 = {"Post": "author", "Comment": "writer"}.get(root)
+    other = {"Comment": "post"}.get(root)
+    if shape == "where":
+        f = {"Post": "rating", "Comment": "post_id", "Author": "id"}[root]
+        base = add({"op": "where", "base": base, "cond": {"f": f, "op": "le", "v": 4}})
+    elif shape == "order":
+        f = {"Post": "title", "Comment": "body", "Author": "name"}[root]
+        base = add({"op": "order", "base": base, "o": {"f": f, "dir": "desc"}})
+    elif shape.startswith("join_"):
+        form = {"outer": "outer_rel"}.get(shape[5:], shape[5:])
+        if shape == "join_other":
+            if other is None or core:
+                return None
+            rel, form = other, "rel"
+        else:
+            rel = rel1
+        if rel is None:
+            return None
+        if fkind == "nav2" and rel == "writer":
+            return None      # two join paths to one table: input-level limitation (6.1)
+        if core:
+            if form != "rel":
+                return None
+            form = "core_join"
+        if dj:
+            if form not in ("rel", "other"):
+                return None
+            j = {"owner": root, "rel": rel, "via": [], "form": "select_related", "path": rel}
+        else:
+            if form == "target_on" and T.TABLE[T.TO_ONE[root][rel][1]] != rel:
+                return None      # the known finding's shape; the random tier reports it
+            j = {"owner": root, "rel": rel, "via": [], "form": form}
+        base = add({"op": "join", "base": base, "j": j})
+    elif shape == "annotated":
+        if not dj or root != "Post":
+            return None
+        base = add({"op": "annotate", "base": base})
+    elif shape == "distinct":
+        base = add({"op": "distinct", "base": base})
+    elif shape == "chained":
+        f = {"Post": "rating", "Comment": "post_id", "Author": "id"}[root]
+        base = add({"op": "apply", "base": base, "t": {"k": "cmp", "f": f, "op": "le", "v": 5}})
+    r1 = add({"op": "apply", "base": base, "t": t})
+    add({"op": "run", "base": base})
+    add({"op": "run", "base": r1})
+    add({"op": "apply_fail", "base": base, "bad": dict(BAD_FILTERS[4])})
+    r2 = add({"op": "apply", "base": base, "t": t2})
+    r3 = add({"op": "apply", "base": r1, "t": t2})
+    for q in (r2, r3, r1, base):
+        add({"op": "run", "base": q})
+    return ops
+
+
+def systematic_jobs(seed, tier):
+    nsl = 16
+    if tier == "thorough":
+        return [{"slice": s, "nslices": nsl, "take": 1} for s in range(nsl)]
+    # quick: one configuration in four, which quarter depends on the seed
+    return [{"slice": s, "nslices": nsl, "take": 4, "offset": seed % 4} for s in range(nsl)]
+
+
+def systematic_plans(seed, spec):
+    combos = [(st, ro, sh, fk) for st in SYS_STYLES for ro in ("Post", "Comment", "Author")
+              for sh in SYS_SHAPES for fk in SYS_FILTERS]
+    idx = 0
+    for ci, (st, ro, sh, fk) in enumerate(combos):
+        ops = _sys_history(st, ro, sh, fk)
+        if ops is None:
+            continue
+        idx += 1
+        if idx % spec["nslices"] != spec["slice"]:
+            continue
+        if spec.get("take", 1) > 1 and (idx // spec["nslices"]) % spec["take"] != spec.get("offset", 0):
+            continue
+        for cache in ((2, 500) if spec.get("take", 1) == 1 else (2,)):
+            label = "sys-%s-%s-%s-%s-c%d" % (st, ro, sh, fk, cache)
+            yield (label, {"property": "C15", "seed": seed, "run": label, "cache_size": cache,
+                           "data": SYS_DATA, "ops": [dict(o) for o in ops]})
